@@ -541,7 +541,7 @@ class PixelAlgorithms(AccessorBase):
                 output_core_dims=[["time"]],
                 keep_attrs=True,
                 dask="parallelized",
-                dask_gufunc_kwargs={"meta": self._obj.data.astype(dtype)},
+                dask_gufunc_kwargs={"meta": self._obj.data.astype("int16")},
             )
 
         else:
@@ -579,8 +579,12 @@ class PixelAlgorithms(AccessorBase):
                 output_core_dims=[["time"]],
                 keep_attrs=True,
                 dask="parallelized",
-                dask_gufunc_kwargs={"meta": self._obj.data.astype(dtype)},
+                dask_gufunc_kwargs={"meta": self._obj.data.astype("int16")},
             )
+
+        # the kernels return int16; a different dtype was asked for: cast, lazily or not
+        if res.dtype != np.dtype(dtype):
+            res = res.astype(dtype)
 
         res.attrs.update(
             {
@@ -779,9 +783,12 @@ class RollingWindowAlgos(AccessorBase):
             output_core_dims=[[dimension]],
             keep_attrs=True,
             dask="parallelized",
-            dask_gufunc_kwargs={"meta": self._obj.astype(dtype).data},
+            dask_gufunc_kwargs={"meta": self._obj.astype("float32").data},
         )
         xx = xx[..., window_size - 1 :]
+        # the kernel returns float32; a different dtype was asked for: cast, lazily or not
+        if xx.dtype != np.dtype(dtype):
+            xx = xx.astype(dtype)
         return xx
 
 
